@@ -47,7 +47,7 @@ theorem handler_imp_insideRun (st : Stage) : st.handlerAvailable = true → st.i
   cases st <;> simp [Stage.insideRun, Stage.handlerAvailable]
 
 theorem dimsKnown_of_handler_ne_options (st : Stage) :
-    st.handlerAvailable = true → st ≠ .options → st.dimsKnown = true := by
+    st.handlerAvailable = true → st ≠ .options → st ≠ .populate → st.dimsKnown = true := by
   cases st <;> simp [Stage.dimsKnown, Stage.handlerAvailable]
 
 theorem options_handler : Stage.options.handlerAvailable = true ∧ Stage.options.dimsKnown = false ∧
@@ -183,10 +183,13 @@ theorem exitStatus_lt (c : Int) : exitStatus c < 256 := by
   omega
 
 /-- the record written when an exception is reported -/
+def errDims (sc : Scenario) (st : Stage) : Dims :=
+  if st.dimsKnown then sc.dims else if st = .populate then sc.partialDims else ⟨0, 0⟩
+
 def errFile (sc : Scenario) (st : Stage) (r : Raise) (complete : Bool) : SolFile :=
   { code := r.toExn.reportCode,
-    ncons := if st.dimsKnown then sc.dims.ncons else 0, nduals := 0,
-    nvars := if st.dimsKnown then sc.dims.nvars else 0, nprimals := 0, complete := complete }
+    ncons := (errDims sc st).ncons, nduals := 0,
+    nvars := (errDims sc st).nvars, nprimals := 0, complete := complete }
 
 /-- the record written on the no-exception path -/
 def okFile (sc : Scenario) (complete : Bool) : SolFile :=
@@ -224,11 +227,44 @@ theorem conclude_raised (sc : Scenario) (a : Bool) (w : Nat) (st : Stage) (r : R
   · cases hx : r.toExn <;> simp [conclude, fail, hi, hx]
     exact absurd hx hf
   · cases hh : st.handlerAvailable <;> cases hw : wantsFile a w <;> cases ho : sc.out.canOpen <;>
-      cases hd : st.dimsKnown <;>
-      simp [conclude, fail, hi, reportError_cases _ _ _ _ _ _ hf, hh, handleSolution, hw, ho, hd, orStderr, errFile]
+      simp [conclude, fail, hi, reportError_cases _ _ _ _ _ _ hf, hh, handleSolution, hw, ho, orStderr, errFile, errDims]
 
 theorem conclude_foreign (sc : Scenario) (a : Bool) (w : Nat) (st : Stage) :
     conclude sc (.raised a w st .foreign) = .crash := by
   cases st <;> simp [conclude, fail, Stage.insideRun, Raise.toExn, reportError]
+
+/-- An ending outside the deviation classes. -/
+def Regular (sc : Scenario) (e : Ending) : Prop :=
+  -- writeerr
+  (sc.out.canOpen = true → sc.out.canFlush = true) ∧
+  match e with
+  | .info => True
+  | .finished a w => wantsFile a w = true                                   -- standalone
+  | .raised a w st r =>
+      r ≠ .foreign ∧                                                          -- foreign
+      r.exitFailureCtor = false ∧                                             -- code1
+      r ≠ .wrappedInfeas ∧                                                    -- infeas500
+      (st = .options → sc.dims = ⟨0, 0⟩) ∧                                    -- optdims
+      (st = .populate → sc.partialDims = sc.dims) ∧                               -- hdrdims
+      (st.handlerAvailable = true → wantsFile a w = true) ∧                   -- standalone
+      (st = .ctor → ∀ c, r.toExn = .mpError c → c % 256 ≠ 0)                  -- ctorcode
+
+instance (sc : Scenario) (e : Ending) : Decidable (Regular sc e) := by
+  unfold Regular
+  cases e with
+  | info => exact inferInstance
+  | finished a w => exact inferInstance
+  | raised a w st r =>
+    -- the last conjunct quantifies over `c`, but `r.toExn` determines it
+    have : Decidable (st = .ctor → ∀ c, r.toExn = .mpError c → c % 256 ≠ 0) :=
+      match hx : r.toExn with
+      | .mpError c0 =>
+        if hst : st = .ctor then
+          if hc : c0 % 256 ≠ 0 then isTrue (fun _ c h => by cases h; exact hc)
+          else isFalse (fun h => hc (h hst c0 rfl))
+        else isTrue (fun h => absurd h hst)
+      | .stdExn => isTrue (fun _ c h => by cases h)
+      | .foreign => isTrue (fun _ c h => by cases h)
+    exact inferInstance
 
 end MpVerif.C09
